@@ -103,9 +103,15 @@ def model_targets():
 
 # ------------------------------------------------------------------ proof obligations
 
+def prop_files(prop):
+    """Props/<prop>.v and its continuation files Props/<prop>_*.v (module names, main file first)"""
+    d = os.path.join(COQ, 'Props')
+    extra = sorted(f[:-2] for f in os.listdir(d) if f.startswith(prop + '_') and f.endswith('.v'))
+    return [prop] + extra
+
+
 def theorems_of(prop):
-    path = os.path.join(COQ, 'Props', prop + '.v')
-    src = open(path).read()
+    src = '\n'.join(open(os.path.join(COQ, 'Props', m + '.v')).read() for m in prop_files(prop))
     # comments are not allowed to hide anything: strip them before scanning
     names = re.findall(r'^\s*Theorem\s+([A-Za-z0-9_\']+)', src, re.M)
     return names, src
@@ -167,7 +173,7 @@ def check_proofs(prop):
     bad = scan_forbidden()
     if bad:
         res['failures'].append('forbidden vernacular: ' + '; '.join(bad[:10]))
-    ok, out = coq_make(['Props/%s.vo' % prop])
+    ok, out = coq_make(['Props/%s.vo' % m for m in prop_files(prop)])
     if not ok:
         res['failures'].append('make Props/%s.vo failed: %s' % (prop, out[-1500:]))
         return res
@@ -177,13 +183,18 @@ def check_proofs(prop):
         if not re.search(r'Check\s+(?:\(\s*@\s*%s\s*\)|@?%s)\s*:' % (re.escape(n), re.escape(n)), nocom):
             res['failures'].append('theorem %s has no pinning Check line' % n)
     # assumptions, from a fresh coqc run against the compiled library
+    qual = {}
+    for m in prop_files(prop):
+        for n in re.findall(r'^\s*Theorem\s+([A-Za-z0-9_\']+)', open(os.path.join(COQ, 'Props', m + '.v')).read(), re.M):
+            qual[n] = 'Xeh.Props.%s.%s' % (m, n)
     tmpd = os.path.join(COQ, '.assume')
     os.makedirs(tmpd, exist_ok=True)
     tmp = os.path.join(tmpd, 'A_%s_%d.v' % (prop, os.getpid()))
     with open(tmp, 'w') as f:
-        f.write('From Xeh Require Import Props.%s.\n' % prop)
+        for m in prop_files(prop):
+            f.write('From Xeh Require Props.%s.\n' % m)
         for n in names:
-            f.write('Goal True. idtac "BEGIN %s". Abort.\nPrint Assumptions %s.\n' % (n, n))
+            f.write('Goal True. idtac "BEGIN %s". Abort.\nPrint Assumptions %s.\n' % (n, qual[n]))
         f.write('Goal True. idtac "BEGIN -". Abort.\n')
     rc, out = sh('timeout 600 coqc -R . Xeh %s 2>&1' % tmp, cwd=COQ)
     for ext in ('.v', '.vo', '.glob', '.vok', '.vos'):
@@ -221,7 +232,7 @@ def check_proofs(prop):
 
 
 def coqchk(prop):
-    rc, out = sh('timeout 1500 coqchk -o -silent -R . Xeh Xeh.Props.%s 2>&1' % prop, cwd=COQ, timeout=1600)
+    rc, out = sh('timeout 2400 coqchk -o -silent -R . Xeh %s 2>&1' % ' '.join('Xeh.Props.' + m for m in prop_files(prop)), cwd=COQ, timeout=2500)
     return rc == 0, out
 
 
